@@ -38,4 +38,20 @@ theorem C14_translated_ascii_case (case : CaseMatching) (n : List Nat) :
     Gen.Parse.ascii_case (fun l => l.map asciiLower) (fun l => l.any (fun b => 65 ≤ b && b ≤ 90)) case.id n = (caseN case n, icOf case n) := by
   cases case <;> rfl
 
+/-- **the escape state machine of the grapheme loop** (a backslash is held back until the next character shows whether it escapes a
+    space), translated statement by statement from `new_inner`, **is the model's `escStep`** -/
+theorem C14_translated_esc_step (case : CaseMatching) (norm : Normalization) (s : EscSt) (c : Nat) :
+    escStep case norm s c =
+      if (Gen.Parse.esc_prelude s.saw c s.out).2.2 then
+        { s with out := (Gen.Parse.esc_prelude s.saw c s.out).1, saw := (Gen.Parse.esc_prelude s.saw c s.out).2.1 }
+      else
+        { out := (foldChar case norm c s.ic s.nz).1 :: (Gen.Parse.esc_prelude s.saw c s.out).1,
+          saw := (Gen.Parse.esc_prelude s.saw c s.out).2.1,
+          ic := (foldChar case norm c s.ic s.nz).2.1, nz := (foldChar case norm c s.ic s.nz).2.2 } := by
+  unfold escStep Gen.Parse.esc_prelude
+  cases hs : s.saw <;> by_cases h32 : c = 32 <;> by_cases h92 : c = 92 <;> simp [h32, h92] <;> omega
+
+/-- behind the loop a pending backslash is pushed -/
+theorem C14_translated_pending : Gen.Parse.esc_pending_push = 92 := rfl
+
 end NucleoVerif
